@@ -47,8 +47,11 @@ Effective(o)  == IF o = "NATIVE" THEN Native ELSE o
 Rev(s)        == [i \in 1..Len(s) |-> s[Len(s) + 1 - i]]
 \* bytes of one scalar (v = its bytes, most significant first) under byte order o
 ScalarBytes(v, o) == IF Effective(o) = "BIG" THEN v ELSE Rev(v)
-RECURSIVE Flat(_)
-Flat(ss) == IF ss = <<>> THEN <<>> ELSE Head(ss) \o Flat(Tail(ss))
+\* concatenation of a sequence of sequences (balanced recursion: depth log n, so long run lists do not exhaust the stack)
+RECURSIVE FlatR(_, _, _)
+FlatR(ss, lo, hi) == IF lo > hi THEN <<>> ELSE IF lo = hi THEN ss[lo]
+                     ELSE LET mid == (lo + hi) \div 2 IN FlatR(ss, lo, mid) \o FlatR(ss, mid + 1, hi)
+Flat(ss) == FlatR(ss, 1, Len(ss))
 ArrayBytes(a, o) == Flat([i \in 1..Len(a) |-> ScalarBytes(a[i], o)])
 \* the value a reader in byte order o assembles from the next bytes (the code's read2/read4/read8 spelled positionally)
 Assemble(bs, o) == [i \in 1..Len(bs) |-> IF Effective(o) = "BIG" THEN bs[i] ELSE bs[Len(bs) + 1 - i]]
